@@ -115,7 +115,7 @@ class Ctx(object):
     # -- forking -----------------------------------------------------------
     def _feasible(self, cond):
         # quantified facts are left out: feasibility only prunes, "unknown" counts as feasible
-        ground = [a for a in Z.AXIOMS.terms() if not z3.is_quantifier(a)]
+        ground = [a for a in Z.AXIOMS.terms() if not _has_quant(a)]
         pc = [p for p in self.pc if not _has_quant(p)]
         r, _, _ = Z.check(ground + pc + [cond], self.FEAS_TIMEOUT_MS, portfolio=False)
         self.engine.stats['feas_checks'] += 1
